@@ -1,12 +1,16 @@
 """
 C04 — survey rows map one-to-one, in order and nesting, onto instance and body.
 
-Theorems: Pyxv/Proofs/C04.lean (`stack_refines_nest`: the begin/end stack machine equals the
-grammar reading, errors included; `instance_shape`; `body_controls_cover_paths`; helper placement).
-Tie/oracle: for every generated sheet the implementation's primary instance (names, order,
-nesting, template marks) and body (control element names and refs, in document order) must equal
-what the Lean pipeline computes from the rows alone — the Lean pipeline *is* the spec shape here
-(`nest` + `plain` + the type table regenerated from /repo).
+Theorems: Pyxv/Proofs/C04.lean (`stack_refines_nest`: the begin/end stack machine equals the grammar
+reading, errors included; `instance_shape`; `body_controls_cover_paths`; helper placement) and
+Pyxv/Proofs/C04Controls.lean (`body_attrs_of_row`: the attributes of every body control as the code builds them
+= the table-driven spec, as finite maps; `appearance_independent_of_parameters` / `parameters_independent_of_appearance`;
+`control_iff_visible`; `body_order_is_row_order`; facts about the regenerated type table).
+Tie/oracle: for every generated sheet the implementation's primary instance (names, order, nesting, template
+marks), body control list (element names and refs, document order) and the attribute map of every body control
+(everything but ref/nodeset) must equal what the Lean pipeline computes from the rows alone (`controls.model`):
+`ctl` / `ctlAttrs` are the model of the code, `specAttrs` is `Spec.rowSpecs` (the property's statement); the
+documented element / media type per type comes from the harness's own table.
 """
 
 from __future__ import annotations
@@ -19,9 +23,12 @@ from vcore import Failure
 
 PROP = "C04"
 RULE = (
-    "generated sheets of question/group/repeat rows of every simple type of the regenerated type table, "
-    "selects (+or_other spellings), count helpers, disabled/blank rows, depth to 5 (quick) / 8 (thorough); "
-    "distinct by canonical hash; non-trivial = accepted and containing a group or repeat"
+    "two families, distinct by canonical hash: (1) structure — sheets of question/group/repeat rows of every simple type of the "
+    "regenerated type table, selects (+or_other spellings), count helpers, externals inside repeats, disabled/blank rows, depth to "
+    "5 (quick) / 8 (thorough); (2) attributes — every parameterised type x appearance x body::x/rows/autoplay columns x valid and "
+    "(15% of sheets) invalid parameter cells x label/hint/neither/media x calculation x trigger, groups/repeats with "
+    "appearance/intent/body::x/jr:count, unlabelled sections of invisible rows, empty sections; non-trivial = accepted and "
+    "containing a group/repeat or a control with attributes"
 )
 
 
